@@ -32,8 +32,8 @@ var validatorRe = regexp.MustCompile(`VALIDATOR (\S+) OK evaluations=(\d+) bound
 // concrete failing input (the validator runs the real functions), not an engine fault.
 var standInOf = map[string]string{
 	"(*BatchDataCodingEncoder).Build": "BUILD",
-	"cmpp.MsgID2String": "MSGID", "cmpp.MsgIDString2Uint64": "MSGID",
-	"datacoding.(UCS2).":              "XTEXT", "datacoding.(Latin1).": "XTEXT", "datacoding.(GB18030).": "XTEXT", "datacoding.(GSM7Unpacked).": "XTEXT",
+	"cmpp.MsgID2String":               "MSGID", "cmpp.MsgIDString2Uint64": "MSGID",
+	"datacoding.(UCS2).": "XTEXT", "datacoding.(Latin1).": "XTEXT", "datacoding.(GB18030).": "XTEXT", "datacoding.(GSM7Unpacked).": "XTEXT",
 }
 
 // standInPartial: functions that ARE under contract, but only for safety, bounds and termination; what they compute is
